@@ -633,3 +633,178 @@ def translate(repo):
 if __name__ == "__main__":
     import sys
     print(translate(sys.argv[1] if len(sys.argv) > 1 else "/repo")["C06/Gen.v"])
+
+
+# ------------------------------------------------------------------------------------------------
+# part 3: the metric classes as wrappers (facts for coq/C06/Wrap.v)
+
+CLS_SRC = "sktime/performance_metrics/forecasting/_classes.py"
+BASE_PARAMS = ["func", "name", "greater_is_better"]
+SERIES = ("y_train", "y_pred_benchmark")
+NOT_OPTIONS = ("y_true", "y_pred", "horizon_weight", "multioutput") + SERIES
+
+
+def func_sigs(repo):
+    with open(os.path.join(repo, SRC)) as f:
+        mod = ast.parse(f.read())
+    sigs = {}
+    for n in mod.body:
+        if isinstance(n, ast.FunctionDef) and n.name in COQ_NAME:
+            names, d = _params(n)
+            sigs[n.name] = {"opts": [p for p in names if p not in NOT_OPTIONS],
+                            "series": [p for p in names if p in SERIES and d[p] is None]}
+    return sigs
+
+
+def _methods(cls):
+    return {n.name: n for n in cls.body if isinstance(n, ast.FunctionDef)}
+
+
+def _read_call(fn):
+    """__call__: (accepts **kwargs?, [(keyword, attribute)]) from `return self._func(y_true, y_pred, ...)`."""
+    a = fn.args
+    _need([x.arg for x in a.args] == ["self", "y_true", "y_pred"] and not a.vararg
+          and not a.kwonlyargs and not a.defaults, "signature of __call__", fn)
+    kwargs = a.kwarg.arg if a.kwarg else None
+    body = _strip_doc(fn)
+    _need(len(body) == 1 and isinstance(body[0], ast.Return) and isinstance(body[0].value, ast.Call),
+          "body of __call__", fn)
+    c = body[0].value
+    _need(_u(c.func) == "self._func" and [_u(x) for x in c.args] == ["y_true", "y_pred"],
+          "call in __call__: " + _u(c), c)
+    fw, forwards_kwargs = [], False
+    for k in c.keywords:
+        if k.arg is None:
+            _need(kwargs is not None and _is_name(k.value, kwargs), "** in " + _u(c), c)
+            forwards_kwargs = True
+            continue
+        v = k.value
+        _need(isinstance(v, ast.Attribute) and _is_name(v.value, "self"), "keyword value " + _u(v), c)
+        fw.append((k.arg, v.attr))
+    _need((kwargs is None) == (not forwards_kwargs), "**kwargs accepted but not forwarded", fn)
+    return forwards_kwargs, fw
+
+
+def _read_base_init(fn):
+    """wrapper base __init__: params, {attribute: param}; must hand func/name/greater_is_better on."""
+    names, _ = _params(fn)
+    _need(names[:4] == ["self"] + BASE_PARAMS, "signature of " + fn.name, fn)
+    attrs = {}
+    saw_super = False
+    for s in _strip_doc(fn):
+        if isinstance(s, ast.Assign) and len(s.targets) == 1 and \
+                isinstance(s.targets[0], ast.Attribute) and _is_name(s.targets[0].value, "self") \
+                and isinstance(s.value, ast.Name) and s.value.id in names:
+            attrs[s.targets[0].attr] = s.value.id
+        elif _u(s) == "super().__init__(func=func, name=name, greater_is_better=greater_is_better)":
+            saw_super = True
+        else:
+            raise Unsupported("statement in wrapper __init__: " + _u(s))
+    _need(saw_super, "wrapper __init__ does not call super().__init__", fn)
+    return names[4:], attrs
+
+
+def class_facts(repo):
+    with open(os.path.join(repo, CLS_SRC)) as f:
+        mod = ast.parse(f.read())
+    classes = {n.name: n for n in mod.body if isinstance(n, ast.ClassDef)}
+    _need("_MetricFunctionWrapper" in classes, "_MetricFunctionWrapper missing")
+    root = classes["_MetricFunctionWrapper"]
+    rm = _methods(root)
+    _need("__init__" in rm and "__call__" in rm, "_MetricFunctionWrapper methods", root)
+    body = [_u(s) for s in _strip_doc(rm["__init__"])]
+    _need(_params(rm["__init__"])[0] == ["self"] + BASE_PARAMS and body[0] == "self._func = func",
+          "_MetricFunctionWrapper.__init__", rm["__init__"])
+    sigs = func_sigs(repo)
+    out = {}
+    for fname in COQ_NAME:
+        pass
+    public = [c for c in classes.values() if not c.name.startswith("_")]
+    for c in public:
+        _need(len(c.bases) == 1 and isinstance(c.bases[0], ast.Name) and c.bases[0].id in classes,
+              "bases of " + c.name, c)
+        base = classes[c.bases[0].id]
+        m = _methods(c)
+        _need(set(m) == {"__init__"}, "methods of " + c.name, c)
+        ctor, _ = _params(m["__init__"])
+        _need(ctor[0] == "self", "constructor of " + c.name, c)
+        ctor = ctor[1:]
+        local = {}
+        sup = None
+        for s in _strip_doc(m["__init__"]):
+            if isinstance(s, ast.Assign) and len(s.targets) == 1 and isinstance(s.targets[0], ast.Name) \
+                    and isinstance(s.value, (ast.Constant, ast.Name)):
+                local[s.targets[0].id] = s.value
+            elif isinstance(s, ast.Expr) and isinstance(s.value, ast.Call) and \
+                    _u(s.value.func) == "super().__init__" and not s.value.args:
+                sup = _kw(s.value)
+            else:
+                raise Unsupported("statement in %s.__init__: %s" % (c.name, _u(s)))
+        _need(sup is not None and "func" in sup, "%s does not call super().__init__" % c.name, c)
+        fv = sup["func"]
+        fv = local.get(fv.id, fv) if isinstance(fv, ast.Name) else fv
+        _need(isinstance(fv, ast.Name) and fv.id in sigs, "wrapped function of " + c.name, c)
+        # the wrapper base: own __init__ or the root's; MRO = base, its bases left to right
+        chain = [base] + [classes[b.id] for b in base.bases
+                          if isinstance(b, ast.Name) and b.id in classes]
+        _need(all(isinstance(b, ast.Name) for b in base.bases), "bases of " + base.name, base)
+        init = next((_methods(k)["__init__"] for k in chain if "__init__" in _methods(k)), None)
+        call = next((_methods(k)["__call__"] for k in chain if "__call__" in _methods(k)), None)
+        _need(init is not None and call is not None, "methods of " + base.name, base)
+        if init is rm["__init__"]:
+            extra_params, attr_of = [], {}
+        else:
+            extra_params, attr_of = _read_base_init(init)
+        _need(set(sup) <= set(BASE_PARAMS) | set(extra_params), "keywords of super().__init__ in "
+              + c.name, c)
+        attrs = {}
+        for attr, p in attr_of.items():
+            if p in sup:
+                v = sup[p]
+                attrs[attr] = ("arg", v.id) if (isinstance(v, ast.Name) and v.id in ctor
+                                                and v.id not in local) else ("fixed",)
+            else:
+                attrs[attr] = ("fixed",)       # the wrapper's own default
+        kwargs, fw = _read_call(call)
+        out[c.name] = {"func": fv.id, "ctor": ctor, "attrs": attrs, "call_kwargs": kwargs,
+                       "forwards": fw}
+    missing = [f for f in sigs if f not in {v["func"] for v in out.values()}]
+    _need(not missing, "functions without a class: %s" % missing)
+    return out, sigs
+
+
+def _cs(s):
+    return '"%s"' % s
+
+
+def _clist(xs):
+    return "[" + "; ".join(xs) + "]"
+
+
+def coq_wrapper(name, w):
+    attrs = _clist(["(%s, %s)" % (_cs(a), "FromArg " + _cs(v[1]) if v[0] == "arg" else "Fixed")
+                    for a, v in sorted(w["attrs"].items())])
+    fw = _clist(["(%s, %s)" % (_cs(k), _cs(a)) for k, a in w["forwards"]])
+    return "(mkwrapper %s %s %s %s %s %s)" % (
+        _cs(name), _cs(w["func"]), _clist([_cs(p) for p in w["ctor"]]), attrs,
+        "true" if w["call_kwargs"] else "false", fw)
+
+
+def coq_fsig(fname, s):
+    return "(mkfsig %s %s %s)" % (_cs(fname), _clist([_cs(p) for p in s["opts"]]),
+                                  _clist([_cs(p) for p in s["series"]]))
+
+
+def translate_classes(repo):
+    facts, sigs = class_facts(repo)
+    rows = ["  (%s,\n   %s)" % (coq_wrapper(n, w), coq_fsig(w["func"], sigs[w["func"]]))
+            for n, w in sorted(facts.items())]
+    text = ["(* GENERATED by translator/metricq.py from %s - do not edit *)" % CLS_SRC,
+            "From Coq Require Import String List Bool.",
+            "Require Import SkV.C06.Wrap.",
+            "Import ListNotations.",
+            "Open Scope string_scope.",
+            "",
+            "Definition gen_wrappers : list (wrapper * fsig) := [",
+            ";\n".join(rows), "].", ""]
+    return {"C06/GenWrap.v": "\n".join(text)}
